@@ -1705,3 +1705,81 @@ func (m *Model) lenSummary(fn *ssa.Function) (lenSum, bool) {
 	m.lenSums[fn] = got
 	return *got, true
 }
+
+// forwardLocal: the load `at` reads the path `path` of a local struct object (root: an Alloc of this function). When
+// exactly one store in the function writes that path or a prefix of it, the store dominates the load, no store
+// overwrites part of it, and the object has not been handed to other code that could run before the load, the load
+// yields (the rest of the path of) the stored value. Returns the stored value, the remaining path and the store.
+func (m *Model) forwardLocal(root *ssa.Alloc, path string, at ssa.Instruction) (ssa.Value, string, *ssa.Store, bool) {
+	fn := at.Parent()
+	if fn == nil || root.Parent() != fn {
+		return nil, "", nil, false
+	}
+	ctx := m.Ctx(fn)
+	mayPrecede := func(in ssa.Instruction) bool {
+		if in.Block() == at.Block() {
+			for _, x := range in.Block().Instrs {
+				if x == in {
+					return true
+				}
+				if x == at {
+					break
+				}
+			}
+			return ctx.reach[in.Block()][in.Block()] // in a loop: a later instruction precedes the next pass
+		}
+		return ctx.reach[in.Block()][at.Block()]
+	}
+	var cand *ssa.Store
+	var rest string
+	var visit func(addr ssa.Value, p string) bool
+	visit = func(addr ssa.Value, p string) bool {
+		refs := addr.Referrers()
+		if refs == nil {
+			return false
+		}
+		for _, r := range *refs {
+			switch x := r.(type) {
+			case *ssa.FieldAddr:
+				if x.X != addr {
+					return false
+				}
+				if !visit(x, p+"."+fieldName(x.X.Type(), x.Field)) {
+					return false
+				}
+			case *ssa.Store:
+				if x.Addr != addr {
+					// the address itself is stored somewhere: escapes
+					if mayPrecede(x) {
+						return false
+					}
+					continue
+				}
+				switch {
+				case p == path || strings.HasPrefix(path, p+"."):
+					if cand != nil {
+						return false // two writers
+					}
+					cand, rest = x, strings.TrimPrefix(path, p)
+				case strings.HasPrefix(p, path+"."):
+					if mayPrecede(x) {
+						return false // partly overwritten
+					}
+				}
+			case *ssa.UnOp:
+				// loads do not change the object
+			case *ssa.DebugRef:
+			default:
+				// handed to a call, converted to an interface, returned, captured, ...
+				if in, ok := r.(ssa.Instruction); ok && mayPrecede(in) {
+					return false
+				}
+			}
+		}
+		return true
+	}
+	if !visit(root, "") || cand == nil || !ctx.instrDominates(cand, at) {
+		return nil, "", nil, false
+	}
+	return cand.Val, rest, cand, true
+}
